@@ -1086,7 +1086,8 @@ func (r *Run) nextInstr(fr *Frame, in *ssa.Next) {
 		r.set(fr, in, Tuple{r.tt.True, e.key, e.val})
 		return
 	}
-	r.set(fr, in, Tuple{r.tt.False, r.zero(tup.At(1).Type()), r.zero(tup.At(2).Type())})
+	_ = tup
+	r.set(fr, in, Tuple{r.tt.False, nil, nil})
 }
 
 // ---- type assertions ----
